@@ -189,3 +189,8 @@ def _tables(ck, prog):
     ck.ob("TAB-colours", SEQ_PATH + ":Sequence.__init__", len(inits) == 1 and unparse(inits[0].args[0]).endswith("DEFAULT_COLOR_PALETTE"),
           expected="a new object starts with the default palette (through the validating setter)", found=[unparse(i) for i in inits], slot="initial-palette",
           where=g.loc())
+
+
+def run_thorough(ck, prog):
+    from props import thorough
+    ck.attempt(thorough.doc_colours, ck, prog, COLOURS)
